@@ -18,7 +18,7 @@ def json_value(r, t, sane=0.85):
     if t == kgen.BOOL:
         return r.choice([True, False]) if ok else r.choice(["y", 1, 0, None, "true", [], 2.5])
     if t == kgen.INT:
-        return r.choice([0, 1, 7, 12, 49, 50, 51, 123, -1, -3]) if ok else r.choice(["12", "abc", 3.0, 2.5, None, True, [1], {"a": 1}, 2 ** 70, ""])
+        return r.choice([0, 1, 7, 12, 49, 50, 51, 123, -1, -3]) if ok else r.choice(["12", "abc", 3.0, 2.5, None, True, [1], {"a": 1}, 2 ** 70, "", "--5", "\u00b2"])
     if t == kgen.HEX:
         return r.choice([0, 1, 31, 63, 64, 65, 16, "1F", "3f", "0x10"]) if ok else r.choice([-1, "zz", 2.5, None, True, [], "", "0x", 2 ** 70, 1e3])
     if t == kgen.FLOAT:
@@ -107,8 +107,8 @@ def gen_requests(r, prog, n, version, hand_n=0, tool_n=0, sane=0.85, w=None, alt
                 d["load"] = load_spec()
             if r.random() < 0.8:
                 d["set"] = set_part()
-            if r.random() < 0.4 and version >= 3:
-                d["reset"] = reset_part()
+            if r.random() < (0.4 if version >= 3 else 0.15):
+                d["reset"] = reset_part()  # (below version 3 the part is refused - and only that part)
             if r.random() < 0.4:
                 d["save"] = save_spec()
             if d:
